@@ -361,7 +361,10 @@ def model_labels(r):
         if pers and s['items'] == 0:
             return init | store, fault
         return (store if after else init), fault
-    return table.get(region, set()), fault
+    labels = set(table.get(region, set()))
+    if (r.get('case') or {}).get('granularity') == 'opcode' and region == 'handler':
+        labels |= {'f_cleanup'}          # within the handler's last line: after the outcome was stored
+    return labels, fault
 
 
 def real_triple(r):
